@@ -166,6 +166,25 @@ func init() {
 		{Kind: "calls", File: "v2/pkg/engine/postprocess/deduplicate_single_fetches.go", Func: "replaceDependsOnFetchID", Name: "replaceDependsOnFetchID", Match: []string{"if", "return", "for", "replaceDependsOnFetchID", "slices.*", "append"}},
 		{Kind: "calls", File: "v2/pkg/engine/resolve/loader_multi_entity.go", Func: "Loader.mergeEntryResults", Name: "mergeEntryResults", Match: []string{"if", "return", "for", "l.*", "goerrors.Join"}},
 	}
+	// C10: where frames are rendered and flushed (one lock region), which fields a defer renders, descriptor paths
+	rs10 := "v2/pkg/engine/resolve/resolve.go"
+	rb := "v2/pkg/engine/resolve/resolvable.go"
+	dm := []string{"if", "return", "for", "defer:*", "dc.*", "r.*", "groupLoader.*", "g.*", "pruneDeadDefers", "NewLoader", "c.*", "d.*", "m.*", "append", "slices.*", "maps.*"}
+	specs["C10"] = []item{
+		{Kind: "calls", File: rs10, Func: "Resolver.resolveDeferSingle", Name: "resolveDeferSingle", Match: dm},
+		{Kind: "calls", File: rs10, Func: "Resolver.resolveDeferTree", Name: "resolveDeferTree", Match: dm},
+		{Kind: "calls", File: rb, Func: "Resolvable.collectDeferFields", Name: "collectDeferFields", Match: dm},
+		{Kind: "calls", File: rb, Func: "Resolvable.isDeferAncestor", Name: "isDeferAncestor", Match: dm},
+		{Kind: "calls", File: rb, Func: "Resolvable.liveChildDescriptors", Name: "liveChildDescriptors", Match: dm},
+		{Kind: "calls", File: "v2/pkg/engine/plan/defer_info_collector.go", Func: "deferInfoCollector.outermostListFieldIndex", Name: "outermostListFieldIndex", Match: dm},
+		{Kind: "calls", File: "v2/pkg/engine/plan/defer_info_collector.go", Func: "deferInfoCollector.deferPath", Name: "deferPath", Match: dm},
+		{Kind: "conds", File: "v2/pkg/ast/ast_field.go", Func: "Document.MergeFieldsDefer", Name: "mergeFieldsDeferConds"},
+		{Kind: "calls", File: "v2/pkg/engine/postprocess/extract_defer_fetches.go", Func: "extractDeferFetches.Process", Name: "extractDeferFetches", Match: dm},
+		{Kind: "calls", File: "v2/pkg/engine/postprocess/extract_defer_fetches.go", Func: "extractDeferFetches.dropDescriptorsWithoutFetchGroup", Name: "dropDescriptors", Match: dm},
+		{Kind: "calls", File: "v2/pkg/engine/postprocess/merge_fields.go", Func: "mergeFields.sameDefer", Name: "sameDefer", Match: dm},
+		{Kind: "calls", File: "v2/pkg/engine/postprocess/merge_fields.go", Func: "mergeFields.fieldsCanMerge", Name: "fieldsCanMerge", Match: dm},
+		{Kind: "conds", File: "v2/pkg/astvalidation/operation_rule_defer_stream_unique_labels.go", Func: "deferStreamLabelsVisitor.EnterDirective", Name: "uniqueLabelConds"},
+	}
 	// C15: the literal → JSON converter and the block string value
 	av := "v2/pkg/ast/ast_value.go"
 	asv := "v2/pkg/ast/ast_val_string_value.go"
